@@ -2,7 +2,7 @@
   Driver/Codec.lean — token codec of the line protocol (prefix notation, every list
   length-prefixed, no token contains a space).
 -/
-import Model
+import Model.Expr
 
 namespace DV.Codec
 open DV
